@@ -51,6 +51,14 @@ def mh_prop(key, st, step):
     return gs.MHProposal({"sigma_transformed": cur + step * z}, log_correction=0.1 * step * z)
 
 
+def mh_prop_node(key, st, step):
+    """as mh_prop, but the proposal is keyed by the value node's name"""
+    import liesel.goose as gs
+    z = jax.random.normal(key, ())
+    cur = st["sigma_transformed_value"].value
+    return gs.MHProposal({"sigma_transformed_value": cur + step * z}, log_correction=0.1 * step * z)
+
+
 def make_sequence(kind):
     """returns (kernels, model interface, example model state builder, free input values, kernel-state examples, rec)"""
     import liesel.goose as gs
@@ -67,6 +75,9 @@ def make_sequence(kind):
             ks = [gs.GibbsKernel(["tau"], gibbs_tau), gs.RWKernel(["mu"])]
             kst = [{}, RWKernelState(0.4)]
             param_keys = ["tau_value", "mu_value"]
+        elif kind == "liesel:RW+MH(position keys are value-node names)":
+            ks = [gs.RWKernel(["beta_value"]), gs.MHKernel(["sigma_transformed_value"], mh_prop_node)]
+            kst = [RWKernelState(0.4), RWKernelState(0.3)]
         elif kind == "liesel:RW+Gibbs":
             ks = [gs.RWKernel(["beta"]), gs.GibbsKernel(["sigma_transformed"], gibbs_fn)]
             kst = [RWKernelState(0.4), {}]
@@ -276,8 +287,8 @@ def obligations(kind, e_seq, e_orc, ks, param_keys, s_free, has_derived):
 
 def main():
     chk = Check("C09")
-    kinds = ["liesel:RW+Gibbs", "liesel:NUTS+MH", "dict:RW+MH", "liesel:Gibbs+RW+RW(ids not sorted)", "liesel:Gibbs(int-initialised parameter)+RW"] if chk.tier == "quick" else \
-        ["liesel:RW+Gibbs", "liesel:IWLS+RW", "liesel:NUTS+MH", "liesel:Gibbs+RW+RW(ids not sorted)", "dict:RW+MH", "dict:NUTS+RW", "liesel:Gibbs(int-initialised parameter)+RW"]
+    kinds = ["liesel:RW+Gibbs", "liesel:NUTS+MH", "dict:RW+MH", "liesel:Gibbs+RW+RW(ids not sorted)", "liesel:Gibbs(int-initialised parameter)+RW", "liesel:RW+MH(position keys are value-node names)"] if chk.tier == "quick" else \
+        ["liesel:RW+Gibbs", "liesel:IWLS+RW", "liesel:NUTS+MH", "liesel:Gibbs+RW+RW(ids not sorted)", "dict:RW+MH", "dict:NUTS+RW", "liesel:Gibbs(int-initialised parameter)+RW", "liesel:RW+MH(position keys are value-node names)"]
     obs = []
     for kind in kinds:
         res = chk.guarded(f"{kind}:trace", f"[{kind}] tracing the kernel sequence", scenario, chk, kind)
